@@ -123,6 +123,9 @@ def map_step_files(rng, s):
                             lines.append(semlib.net(loc, rng.choice(["8000::/1", "ff00::/8", "::/0"]), mid))   # last range point carries a location
         if not lines:
             continue
+        if rng.random() < 0.7:          # the default map: subnets without a map id serve the names that have no resolver map
+            lines.append(semlib.net(0x4177, "10.0.0.0/8", 0))
+            lines.append(semlib.net(0x4178, rng.choice(["10.1.2.0/24", "2001:db8::/32", "192.0.2.0/24"]), 0))
         s.file(lines, rng, tag="mapstep")
         qn = cands + ["q." + c for c in cands] + ["q.q." + c for c in cands] + ["other.net", "", "a!." + zone]
         for n in qn:
